@@ -643,3 +643,61 @@ def c02_merge(tier, rng):
                 "obligation": "C02.merge_counts", "inputs": {"seed": base + k}, "observed": p[:3],
                 "required": "statistics lines are sums over the per-chromosome files", "replay_call": "contracts.c_counters:replay_merge"}]}
     return {"cases": n, "bound": "%d random merges" % n, "violations": [], "samples": [{"seed": base}]}
+
+
+# ---- which strategy and which feature level each count table of a run is produced with: the real ReadAssignmentAggregator, enumerated ------------
+@finite("C02.aggregator_wiring", ["C02"], note="the real ReadAssignmentAggregator built for every pair (--gene_quantification, --transcript_quantification) "
+        "with annotation, grouping, exon counting and model construction switched on: the gene tables (plain and grouped) use the gene extractor "
+        "with the gene strategy, the transcript and transcript-model tables (plain and grouped) the transcript extractor with the transcript "
+        "strategy, and all six counters are registered with the composite counters that feed them")
+def c02_aggregator_wiring(tier, rng):
+    import itertools, os, shutil, tempfile
+    dpm = native.repo_import("src/dataset_processor.py")
+    lrc = native.repo_import("src/long_read_counter.py")
+
+    class Args:
+        def __init__(self, **kw):
+            self.__dict__.update(kw)
+
+        def __getattr__(self, n):
+            return None
+
+    class Sample:
+        def __init__(self, d):
+            self.d = d
+
+        def __getattr__(self, n):
+            if n.startswith("out_"):
+                return os.path.join(self.d, n)
+            raise AttributeError(n)
+    want = {"gene_counter": ("GeneAssignmentExtractor", "g"), "gene_grouped_counter": ("GeneAssignmentExtractor", "g"),
+            "transcript_counter": ("TranscriptAssignmentExtractor", "t"), "transcript_grouped_counter": ("TranscriptAssignmentExtractor", "t"),
+            "transcript_model_counter": ("TranscriptAssignmentExtractor", "t"), "transcript_model_grouped_counter": ("TranscriptAssignmentExtractor", "t")}
+    base = os.path.join(os.path.dirname(os.path.dirname(os.path.abspath(__file__))), ".run")
+    os.makedirs(base, exist_ok=True)
+    obl = dis = 0
+    viol = []
+    names = [s.name for s in lrc.CountingStrategy]
+    for gq, tq in itertools.product(names, names):
+        d = tempfile.mkdtemp(prefix="agg", dir=base)
+        try:
+            a = Args(_cmd_line="x", _version="v", counts_format="both", genedb="g.db", gene_quantification=gq, transcript_quantification=tq,
+                     read_group="file_name", count_exons=True, no_model_construction=False, sqanti_output=False)
+            ag = dpm.ReadAssignmentAggregator(a, Sample(d), {"g1", "g2"})
+            for attr, (ext, which) in want.items():
+                obl += 1
+                c = getattr(ag, attr, None)
+                e = getattr(c, "assignment_extractor", None)
+                ename = e.__name__ if isinstance(e, type) else type(e).__name__
+                strat = c.read_counter.strategy.name if c is not None else None
+                registered = c is not None and any(c is x for comp in (ag.global_counter, ag.transcript_model_global_counter) for x in comp.counters)
+                if c is not None and ename == ext and strat == (gq if which == "g" else tq) and registered:
+                    dis += 1
+                elif len(viol) < 5:
+                    viol.append({"obligation": "C02.aggregator_wiring.%s" % attr, "inputs": {"gene_quantification": gq, "transcript_quantification": tq},
+                                 "observed": "%s: extractor %s, strategy %s, registered %s" % (attr, ename, strat, registered),
+                                 "required": "%s with the %s strategy" % (ext, "gene" if which == "g" else "transcript")})
+        finally:
+            shutil.rmtree(d, ignore_errors=True)
+    return {"obligations": obl, "discharged": dis, "violations": viol, "cases": obl, "exhaustive": True,
+            "bound": "%d x %d strategy pairs x 6 counters" % (len(names), len(names)), "samples": [{"gene": "all", "transcript": "unique_only"}]}
